@@ -354,6 +354,37 @@ func checkC01(c WKCase, st *stats.Collector) error {
 			return err
 		}
 	}
+	// whatever the attachment callback does with the data (reads all, nothing, half; asks for the CRCs or not, in
+	// either order), every other record is lexed the same
+	if len(w.Attachments()) > 0 {
+		full := mc.LexAll(bytes.NewReader(file), mc.LexParams{SkipMagic: k.SkipMagic, Custom: custom, AttCRC: true}, false)
+		mode := 1 + int(wl.Hash(c)%4)
+		part := mc.LexAll(bytes.NewReader(file), mc.LexParams{SkipMagic: k.SkipMagic, Custom: custom, AttCRC: mode != 3, AttConsume: mode, ValidateCRC: wl.Hash(c)%8 < 4}, false)
+		if part.Panic != "" {
+			return pk.Failf("panic", "lexer with attachment callback mode %d: %s", mode, part.Panic)
+		}
+		if !part.Clean() {
+			return pk.Failf("lex-error", "lexer whose attachment callback reads %s: open=%v err=%v after %d events", []string{"", "nothing", "half the data", "all, no CRC calls", "all, ParsedCRC first"}[mode], part.OpenErr, part.Err, len(part.Events))
+		}
+		if len(part.Events) != len(full.Events) {
+			return pk.Failf("attachment-handling", "lexer with attachment callback mode %d yields %d events, %d when the callback reads everything", mode, len(part.Events), len(full.Events))
+		}
+		for i := range full.Events {
+			a, b := &full.Events[i], &part.Events[i]
+			if a.Kind != b.Kind {
+				return pk.Failf("attachment-handling", "attachment callback mode %d: event #%d is a %s, a %s when the callback reads everything", mode, i, b.Kind, a.Kind)
+			}
+			if a.Kind == "attachment" {
+				if mc.AttFieldsSig(a.A) != mc.AttFieldsSig(b.A) || !bytes.HasPrefix(a.A.Data, b.A.Data) || (mode == 4 && (b.A.ParsedCRC != a.A.ParsedCRC || b.A.ComputedCRC != a.A.ComputedCRC || b.A.ParsedErr != "" || b.A.ComputedErr != "")) {
+					return pk.Failf("attachment-handling", "attachment callback mode %d: attachment event #%d differs: %s vs %s", mode, i, pk.Short(b.A), pk.Short(a.A))
+				}
+				continue
+			}
+			if mc.Sig(a) != mc.Sig(b) {
+				return pk.Failf("attachment-handling", "attachment callback mode %d: event #%d is %s, %s when the callback reads everything", mode, i, pk.Short(b), pk.Short(a))
+			}
+		}
+	}
 	// two lexers side by side over the same bytes, one Next each in turn (a merge or compare tool): what one
 	// lexer returns must not depend on another lexer being alive, or on lexers this process closed earlier
 	{
